@@ -126,6 +126,14 @@ func kdcBody(msg []byte, realm string) []byte {
 		return der.KdcProxyMessage(msg, "EXAMPLE.COM", true, 0, false)
 	case "second":
 		return der.KdcProxyMessage(msg, "SECOND.ORG", true, 1, true)
+	case "default+hint0":
+		// the optional dclocator-hint is present and zero
+		return der.KdcProxyMessage(msg, "EXAMPLE.COM", true, 0, true)
+	case "empty-realm+hint0":
+		// both optional elements present with their zero values: an empty target-domain means the default realm
+		return der.KdcProxyMessage(msg, "", true, 0, true)
+	case "default+hint-large":
+		return der.TLV(0x30, append(append(der.TLV(0xA0, der.TLV(0x04, msg)), der.TLV(0xA1, der.TLV(0x1B, []byte("EXAMPLE.COM")))...), der.TLV(0xA2, der.TLV(0x02, []byte{0x40, 0, 0, 0}))...))
 	case "child":
 		return der.KdcProxyMessage(msg, "EMEA.EXAMPLE.COM", true, 0, false)
 	case "unknown-sub":
@@ -313,10 +321,14 @@ func kdcCheck(sc KdcScenario, res *KdcResult) (outcome string, v []vsched.Violat
 			good = append(good, c)
 		}
 	}
+	// a well-formed request for a configured realm is relayed: the gateway contacts a KDC of that realm
+	if configured && sc.RawBody == nil && sc.Size >= 100 && sc.Size <= 65535 && (sc.Method == "" || sc.Method == "POST") && !sc.NoLength && sc.Declared == 0 && len(res.Dials) == 0 {
+		add("well-formed-request-not-relayed/"+sc.Realm, fmt.Sprintf("realm %s, %d-byte message: status %d and no KDC was contacted", sc.Realm, sc.Size, res.Code))
+	}
 	// the dial plan tells which behaviours were actually reached
 	wantRealmHosts := map[string]bool{}
 	switch sc.Realm {
-	case "absent", "default":
+	case "absent", "default", "default+hint0", "empty-realm+hint0", "default+hint-large":
 		for i := 1; i <= sc.NKdc; i++ {
 			wantRealmHosts[fmt.Sprintf("kdc%d.example.com:88", i)] = true
 		}
@@ -392,9 +404,9 @@ func c20Scenarios(thorough bool) []KdcScenario {
 	}
 	// 1 KDC: full product of behaviours x realms x sizes
 	sizes := []int{0, 1, 3, 4, 5, 100, 1500, 65535, 128*1024 - 32}
-	for _, realm := range []string{"default", "absent", "second", "unknown", "child", "unknown-sub"} {
+	for _, realm := range []string{"default", "absent", "second", "unknown", "child", "unknown-sub", "default+hint0", "empty-realm+hint0", "default+hint-large"} {
 		for _, size := range sizes {
-			if (realm == "child" || realm == "unknown-sub") && size != 100 && size != 65535 {
+			if (realm == "child" || realm == "unknown-sub" || strings.Contains(realm, "hint")) && size != 100 && size != 65535 {
 				continue
 			}
 			for _, u := range udpB {
@@ -443,7 +455,7 @@ func c20Scenarios(thorough bool) []KdcScenario {
 
 func c20(env *Env, rep *Report) {
 	scs := c20Scenarios(env.thorough())
-	rep.Rule = fmt.Sprintf("%d request scenarios against the real kdcproxy handler with scripted KDC connections: 1 KDC: realms {default, absent, second, unknown; for two sizes also a child realm with its own KDC and an unconfigured realm below a [domain_realm] suffix of the parent realm} x Kerberos payload sizes {0,1,3,4,5,100,1500,65535,128KiB-32} x UDP behaviour {reply, silent, refuse} x TCP behaviour {reply then close, reply and keep open, reply in two writes, half a reply then close, close at once, silent, refuse}; 2 and 3 KDCs: every combination of those behaviours (quick: 3 KDCs without two-writes/close-at-once); KDC replies of 1465 / 4096 / 4097 / 9000 / 60000 / 65507 bytes over UDP and 4097 / 65536 / 100000 bytes over TCP. "+
+	rep.Rule = fmt.Sprintf("%d request scenarios against the real kdcproxy handler with scripted KDC connections: 1 KDC: realms {default, absent, second, unknown; for two sizes also a child realm with its own KDC, an unconfigured realm below a [domain_realm] suffix of the parent realm, and requests whose optional elements are present with zero / large values (dclocator-hint 0, empty target-domain, hint 0x40000000)} x Kerberos payload sizes {0,1,3,4,5,100,1500,65535,128KiB-32} x UDP behaviour {reply, silent, refuse} x TCP behaviour {reply then close, reply and keep open, reply in two writes, half a reply then close, close at once, silent, refuse}; 2 and 3 KDCs: every combination of those behaviours (quick: 3 KDCs without two-writes/close-at-once); KDC replies of 1465 / 4096 / 4097 / 9000 / 60000 / 65507 bytes over UDP and 4097 / 65536 / 100000 bytes over TCP. "+
 		"Each runs under the default schedule with deadlines firing at quiescence; selected scenarios additionally under every schedule of handler, reply readers and KDC threads up to the preemption bound. Oracle: KDCs of the right realm receive exactly the embedded message (TCP with, UDP without the 4-byte prefix); if any connection delivers a complete reply the response is 200 and its kerb-message is exactly one KDC's reply (length-prefixed); otherwise an error status; always an HTTP response and no goroutine left. Histories: 32 ordered pairs of requests in one process (first: each realm form, answered or not; second: each realm form), the second judged like a first request. Two requests at the same time (same realm, two realms, parent and child realm; KDCs that reply, stay silent, refuse, reply half) under every schedule up to the deviation bound: each is answered as if alone, by the reply of a connection that received its own message, without waiting for the other's deadline, and every KDC connection is closed. Malformed requests are part of C10(d). Binding: the real rdpgw binary with a kerberos configuration and scripted KDCs on loopback TCP/UDP sockets (realms whose KDC replies over TCP, over UDP, stays silent, refuses TCP, truncates its reply; unknown realm; other methods; malformed bodies): every request gets an HTTP response with the status and bytes above. distinct_nontrivial = distinct scenarios.", len(scs))
 	rep.Assumptions = append(rep.Assumptions,
 		"a UDP write of more than 65507 bytes fails with EMSGSIZE, as on a real socket",
